@@ -1822,6 +1822,8 @@ class _IndexLoops(ast.NodeTransformer):
                                                                   and len(it.args) == 1 and not it.keywords):
             return n
         ln = it.args[0]
+        if isinstance(ln, ast.Name) and ln.id in getattr(self, "lens", {}):
+            ln = self.lens[ln.id]           # `n = len(X)` bound once, X never re-bound / mutated in the function: range(n) is range(len(X))
         if not (isinstance(ln, ast.Call) and isinstance(ln.func, ast.Name) and ln.func.id == "len" and len(ln.args) == 1 and not ln.keywords):
             return n
         X = ln.args[0]
@@ -1867,8 +1869,42 @@ class _IndexLoops(ast.NodeTransformer):
     visit_Lambda = visit_AsyncFunctionDef = visit_ClassDef = lambda self, n: n
 
 
+def _single_lens(func) -> dict:
+    """{n: the call len(X)} for the locals bound exactly once in the function, to `len(X)` with X a plain name / attribute chain whose
+    base name is bound at most once in the function and never mutated in place there (so len(X) means the same wherever n is read)"""
+    stores = {}
+    for x in ast.walk(func):
+        if isinstance(x, ast.Name) and isinstance(x.ctx, (ast.Store, ast.Del)):
+            stores[x.id] = stores.get(x.id, 0) + 1
+    mutated = _stored(func.body) - set(stores)
+    for x in ast.walk(func):
+        if isinstance(x, ast.Call) and isinstance(x.func, ast.Attribute) and x.func.attr in MUTATORS:
+            b = x.func.value
+            while isinstance(b, (ast.Subscript, ast.Attribute)):
+                b = b.value
+            if isinstance(b, ast.Name):
+                mutated.add(b.id)
+        elif isinstance(x, (ast.Subscript, ast.Attribute)) and isinstance(x.ctx, (ast.Store, ast.Del)):
+            b = x
+            while isinstance(b, (ast.Subscript, ast.Attribute)):
+                b = b.value
+            if isinstance(b, ast.Name):
+                mutated.add(b.id)
+    out = {}
+    for st in ast.walk(func):
+        if isinstance(st, ast.Assign) and len(st.targets) == 1 and isinstance(st.targets[0], ast.Name) and stores.get(st.targets[0].id) == 1 \
+                and isinstance(st.value, ast.Call) and isinstance(st.value.func, ast.Name) and st.value.func.id == "len" and len(st.value.args) == 1 and not st.value.keywords:
+            b = st.value.args[0]
+            while isinstance(b, ast.Attribute):
+                b = b.value
+            if isinstance(b, ast.Name) and stores.get(b.id, 0) <= 1 and b.id not in mutated and "len" not in stores:
+                out[st.targets[0].id] = st.value
+    return out
+
+
 def index_loops_to_enumerate(func):
     tr = _IndexLoops()
+    tr.lens = _single_lens(func)
     func.body = [tr.visit(st) for st in func.body]
     return func
 
